@@ -343,11 +343,11 @@ func errKind(e error) string {
 		return "CORRUPT"
 	}
 	switch e {
-	case stdgzip.ErrChecksum, stdzlib.ErrChecksum:
+	case stdgzip.ErrChecksum, stdzlib.ErrChecksum, gzip.ErrChecksum, zlib.ErrChecksum:
 		return "CHECKSUM"
-	case stdgzip.ErrHeader, stdzlib.ErrHeader:
+	case stdgzip.ErrHeader, stdzlib.ErrHeader, gzip.ErrHeader, zlib.ErrHeader:
 		return "HEADER"
-	case stdzlib.ErrDictionary:
+	case stdzlib.ErrDictionary, zlib.ErrDictionary:
 		return "DICT"
 	}
 	return "OTHER:" + e.Error()
